@@ -384,7 +384,15 @@ def check_C13(ctx, thms=None):
         cases.append((N, rules, prefix, inputs, mt))
     reqs = []
     for (N, rules, prefix, inputs, mt) in cases:
-        rs = '|'.join('%d:%s' % (l, '.'.join(('t%d' % s[1]) if s[0] == 't' else ('n%d' % s[1]) for s in a) or '-') for (l, a) in rules)
+        # the API also accepts explicit epsilon symbols anywhere inside a right-hand side (they mean nothing): some
+        # rules are written that way — `e` alone for the empty rule, `e` before / between / behind other symbols
+        def spell(a):
+            toks_ = [('t%d' % s_[1]) if s_[0] == 't' else ('n%d' % s_[1]) for s_ in a]
+            if r.random() < 0.2:
+                for _ in range(r.randint(1, 2)):
+                    toks_.insert(r.randrange(len(toks_) + 1), 'e')
+            return '.'.join(toks_) or '-'
+        rs = '|'.join('%d:%s' % (l, spell(a)) for (l, a) in rules)
         ins = '/'.join('.'.join(map(str, i + [0])) for i in inputs)
         reqs.append('LR %d;%s;0;0;%d %s' % (N, rs, 1 if prefix else 0, ins))
     key = front.canon_plain(['first', 'nstates', 'conf', 'act', 'jump', 'parses'])
